@@ -118,6 +118,16 @@ def run(tier):
         rows = ap["rows"]
         idx = {row["id"]: row for row in rows}
         skip = ap["skip"]
+        # what the configuration file asks for is the reference, not what VSG made of it
+        try:
+            import yaml as _yaml
+
+            want = sorted(set(int(x) for x in (_yaml.safe_load(o["cfg"]) or {}).get("skip_phase", []) or []))
+        except Exception:
+            want = None
+        if want is not None and sorted(set(skip)) != want:
+            ck.violation("skip_phase:configured-set-not-honoured", "%s: the configuration asks to skip phases %r, the run skips %r" % (rel, want, sorted(set(skip))), dict({"kind": "input", "file": rel, "config": o["cfg"], "fix_phase": o["fix_phase"]}, oracle="skip-config"))
+            skip = want
         replay = {"kind": "input", "file": rel, "config": o["cfg"], "fix_phase": o["fix_phase"]}
         # ---- property oracle on the real runs alone
         err_phases = sorted({idx[v[0]]["phase"] for v in ap["viol"] if idx[v[0]]["error"]})
